@@ -32,7 +32,7 @@ CHECKS = {
  "C09": ("other", "contract-based deductive verification of LogicalType.logical_parse (union stages, exclusive-or, negation, conjunction fold) with abstract leaves",
          "Combinator semantics proved on the real logical_parse for all inputs and argument lists: union = exact type unchanged, else first accepting argument in stage order; exclusive-or = exactly one argument accepts the given input (order independent); "
          "negation; conjunction = fold of the running value; normal return leaves no recorded error. Construction algebra proved on combine (Any absorbs | and ^ and is ignored by &, duplicates dropped in order, nothing left gives Rule, built combination = kept operands), "
-         "combine_by (same-kind operands flatten, reading order), the operator dunders and __invert__ (double negation cancels). One known finding (xor exact-type shortcut) - hence 'other', not 'proof'; _parse_arg and the LogicalMeta operators of data classes are interfaces.", "DESIGN 3 C09"),
+         "combine_by (same-kind operands flatten, reading order), the operator dunders and __invert__ (double negation cancels). the LogicalMeta operators of data classes (&, |, ^, ~ and their reflections: reading order). One known finding (xor exact-type shortcut) - hence 'other', not 'proof'; _parse_arg is an interface.", "DESIGN 3 C09"),
  "C19": ("other", "contract-based deductive verification: freshness / frame obligations on the real functions",
          "copy_value rebuilds list/set/frozenset/tuple/dict at every depth (fresh result, items are copies), ParserField.get_default hands out only copy_value results (force_default, default, default_factory) with the documented gates; "
          "every contracted parse function carries `no input mutation` frame obligations and `fresh result`; the generated __init__ only reads the caller's dict; an AST audit shows that no parse-path function (about 100) writes to a parser, field, class or transformer object. "
@@ -40,7 +40,7 @@ CHECKS = {
          "Generator protocols and memoisation outside the registry are not decided - hence 'other'.", "DESIGN 3 C19"),
  "C05": ("other", "contract-based deductive verification of the field predicates against truth tables written from the documentation; consistency lemma",
          "ParserField.is_required / is_no_input / always_no_input / is_no_output / always_no_output / get_on_error / get_default, BaseParser.parse_addition proved against the documented tables for bool / mode-string / callable settings; "
-         "always_* and is_* agree (lemma). The two field loops (data_first_parse, field_first_parse) are not under contract - hence 'other'.", "DESIGN 3 C05"),
+         "always_* and is_* agree (lemma); Field.get_alias (output name). The two field loops are BOUNDED to four two-field parser shapes incl. dependencies (see C06) - hence 'other'.", "DESIGN 3 C05"),
  "C07": ("other", "contract-based deductive verification of the Schema mutators against a two-view state model (mapping / attribute dictionary) + AST audits of the inherited dict mutators",
          "Schema.__field_setter__, __setitem__ (additional keys), __field_deleter__, pop, popitem, copy, clear (bounded: two declared fields), __post_init__: each single-key operation either raises with both views unchanged or stores only parsed values "
          "under the touched key/attribute, never the unprovided sentinel, leaves every other entry untouched, refuses required/immutable deletions; every mutating dict method is overridden; update/setdefault/|= go through __setitem__ (audits). "
@@ -49,7 +49,8 @@ CHECKS = {
  "C04": ("other", "contract-based deductive verification: exceptional frames (`only ParseError escapes`) on the real parse-path functions",
          "Rule.parse, _parse_seq_args, _parse_tuple_args, _parse_map_args, _parse_contains, _parse_type_arg, LogicalType.logical_parse, ParserField.parse_value / parse_output_value, BaseParser.parse_addition, "
          "FunctionParser.parse_pos_type: every operation outside a handler is an obligation under the type knowledge at that point; leaves may raise any Exception. Two known findings (unhashable converted key / item). "
-         "Termination of the converter loops and the function-call wrappers are not decided - hence 'other'.", "DESIGN 3 C04"),
+         "init_dataclass (non-string keys), FunctionParser.parse_result, sync_call (the decorated function is entered only after get_params has returned: call-site obligation with a ghost counter). "
+         "The generator / async wrappers and the converters' own frames are not decided - hence 'other'.", "DESIGN 3 C04"),
  "C12": ("other", "contract-based deductive verification of the preference-dependent branches of the converters and container parsers; one syntactic audit",
          "Promises proved on the real code: _attempt_from (no unwrapping under no_explicit_cast; a multi-element collection never collapses under no_data_loss), to_null, to_bool (only unambiguous booleans under no_data_loss), "
          "to_float / to_integer (only numbers under no_explicit_cast), _parse_tuple_args excess rule, transform_dataclass list rule, bytes decode strictly (audit), Options.__init__: no_data_loss turns an unspecified `addition` into False "
@@ -57,17 +58,20 @@ CHECKS = {
          "is proved by self-composition of the real body for to_null and to_bool only; the other converters and the date/time converters are not decided - hence 'other'. One known finding (1/0 -> bool under no_explicit_cast).", "DESIGN 3 C12"),
  "C01": ("other", "contract-based deductive verification: type-conformance postconditions on converters and structural postconditions on the container parsers",
          "Proved: to_null / to_bool / to_float / to_integer return an instance of the requested (sub)class on every exit; TypeTransformer.apply / __call__ return the leaf conversion; the container parsers return element-wise converted results "
-         "(C11 contracts) and Rule.parse returns only after every validator and raise_error. The structural-induction lemma over all declared types and the remaining converters are not done - hence 'other'.", "DESIGN 3 C01"),
+         "(C11 contracts) and Rule.parse returns only after every validator and raise_error; lax constraints keep the declared type; FunctionParser.parse_result converts by the return annotation. "
+         "Induction STEPS of conformance as lemmas over the contracts: sequences, fixed-length tuples, mappings, unions (given the hypothesis for the argument types). One known finding (an int type with a fractional lax bound). "
+         "The induction principle over all declared types is meta-level, and the remaining converters are not under contract - hence 'other'.", "DESIGN 3 C01"),
  "C13": ("other", "lemmas over the proved validator contracts, one per (constraint -> keyword) pair read from constant.py on every run; contract of generate_for_dataclass (bounded: two fields); audits",
          "Keyword tables: for every pair of TYPE_CONSTRAINTS_MAP with a standard keyword (maximum, exclusiveMaximum, minimum, exclusiveMinimum, multipleOf, max/minLength, max/minItems, uniqueItems, pattern) the utype validator's acceptance implies the "
          "JSON Schema 2020-12 keyword predicate (15 lemmas, all inputs). Object structure (bounded, two fields): properties = fields usable in that direction, required = fields whose absence is an error (+ defaulted ones in the output view), "
          "additionalProperties = the addition policy. Meta-schema validity, $defs, encoder output and nested generics are not decided - hence 'other'.", "DESIGN 3 C13"),
  "C15": ("other", "lemmas over the proved validator contracts, one per (keyword -> constraint) pair of CONSTRAINTS_MAP read from constant.py on every run",
          "For every standard keyword of the parser table the constraint it is mapped to accepts only values for which the keyword holds (the built type is at least as strict as the schema, 15 lemmas, all inputs). "
-         "`building a type succeeds` and validity of returned instances against the whole schema are not decided - hence 'other'.", "DESIGN 3 C15"),
+         "parse_type (unknown formats fall back, const / enum without type), parse_object (bounded: one property, seven representative names): a listed property is required, the attribute it is stored under is free in the base class, usable, "
+         "not underscore-led, and the property's own key stays its public name. One known finding (the empty property name). Validity of returned instances against the whole schema is not decided - hence 'other'.", "DESIGN 3 C15"),
  "C17": ("other", "contract-based deductive verification of register_forward_ref (registration completeness, with loop invariant and variant), resolve_forward_type, ClassParser.globals, BaseParser.resolve_forward_refs (bounded)",
          "R1: after registration this very reference object is pending in forward_refs whatever was registered before (the same name used in several annotations), nothing registered earlier is lost; R2: an evaluated reference is replaced by its value and reported, others are unchanged; "
-         "R3 (bounded: one pending reference): an unresolvable reference stays registered; ClassParser.globals: the class's own name always stands for the class itself, every other name as in the module, the module's namespace is not written. "
+         "references held by an inline generic operand of an operator-built combination are registered (LogicalType.register_forward_refs, bounded shape); R3 (bounded: one pending reference): an unresolvable reference stays registered; ClassParser.globals: the class's own name always stands for the class itself, every other name as in the module, the module's namespace is not written. "
          "One known finding (a ForwardRef shared through typing's alias cache is trusted whatever namespace evaluated it). "
          "Equality of behaviour with the direct spelling for every definition / first-use order, postponed evaluation and local scopes depends on typing's evaluator and module globals and is not decided - hence 'other'.", "DESIGN 3 C17"),
  "C06": ("other", "BOUNDED contract verification: field_first_parse and data_first_parse each verified against the same declarative field contract for four parser shapes",
